@@ -53,13 +53,20 @@ class HistCase:
         return res
 
 
-def run(prop, tier, case, seeds, level, rule, assumptions, budget_s, floor=8, extra=None):
+def run(prop, tier, case, seeds, level, rule, assumptions, budget_s, floor=8, extra=None, layers=()):
+    """layers: further (case function, items, coverage dict, budget in seconds) run after the histories into the same collector"""
     col = Collector(prop, tier, level, rule, assumptions, floor=floor)
     deadline = time.time() + budget_s
     from . import fixedhist
     seeds = [('fixed', n) for n in sorted(fixedhist.SCENARIOS)] + list(seeds)
     for r in common.pmap(case, seeds, deadline=deadline):
         col.add(r)
+    extra = dict(extra or {})
+    for fn, its, cov, budget in layers:
+        d2 = time.time() + budget
+        for r in common.pmap(fn, its, deadline=d2):
+            col.add(r)
+        extra.update(cov or {})
     rc = col.finish(extra_coverage=extra)
     common.cleanup_scratch()
     return rc
